@@ -917,13 +917,33 @@ Proof. intros H. unfold effective. rewrite H. reflexivity. Qed.
 Theorem cli_absent cli resolved s : cli s = None -> effective cli resolved s = resolved s.
 Proof. intros H. unfold effective. rewrite H. reflexivity. Qed.
 
-Theorem profile_then_default custom dflt s k :
-  setting_key s = Some k -> relevant_subkeys s = None ->
-  profile_value custom dflt s = or_else (olookup k custom) (lookup k dflt).
+(* the profile-level tail of TestSettings::new, all eleven settings: the documented rule
+   (selected profile, else default profile; fixed defaults for priority / test-group), except
+   that in the F22 class the two JUnit storage flags are off *)
+Theorem profile_then_default custom dflt s :
+  profile_value custom dflt s =
+  if known_f22 custom dflt && is_junit_setting s then Some (VLeaf a_false)
+  else documented_profile_value custom dflt s.
 Proof.
-  intros Hk Hr. destruct s; try discriminate Hr; try discriminate Hk;
-    injection Hk as <-; destruct custom; reflexivity.
+  assert (J : forall sk, junit_store custom dflt sk =
+                         if known_f22 custom dflt then Some (VLeaf a_false)
+                         else documented_junit_store custom dflt sk).
+  { intros sk. unfold junit_store, junit_enabled, known_f22, documented_junit_store, junit_leaf.
+    destruct custom as [c|]; cbn [or_else].
+    - destruct (sub (lookup k_junit c) k_path) as [pa|]; cbn [is_some negb andb].
+      + destruct (sub (lookup k_junit c) sk); reflexivity.
+      + destruct (sub (lookup k_junit dflt) k_path); reflexivity.
+    - destruct (sub (lookup k_junit dflt) k_path); cbn [is_some]; reflexivity. }
+  destruct s; cbn [profile_value documented_profile_value is_junit_setting setting_key];
+    rewrite ?andb_false_r, ?andb_true_r; try apply J; try reflexivity;
+    unfold getter, sel_then_default; destruct custom as [c|]; cbn [or_else]; try reflexivity;
+    match goal with |- context [lookup ?k c] => destruct (lookup k c); reflexivity end.
 Qed.
+
+Theorem profile_value_outside_known custom dflt s :
+  known_f22 custom dflt = false ->
+  profile_value custom dflt s = documented_profile_value custom dflt s.
+Proof. intros H. rewrite profile_then_default, H. reflexivity. Qed.
 
 (* ---------------------------------------------------------------- witnesses *)
 
@@ -1039,3 +1059,45 @@ Definition w_repo' : file :=
                            mk_ov None (Some s_cfg_unix) OFNone []]);
      (s_ci, mk_pc [(k_retries, VLeaf s_3)]
                   [mk_ov None None (OFFilter s_all) [(SRetries, VLeaf s_7)]])].
+
+(* ---------------------------------------------------------------- F22 *)
+
+(* .config/nextest.toml:
+     [profile.default.junit]
+     path = "junit.xml"
+     store-success-output = true
+     [profile.ci]
+     retries = 3
+   run with --profile ci *)
+Definition w_f22_repo : file :=
+  mk_file None
+    [(default_name,
+      mk_pc [(k_junit, VTable [(k_path, s_junit_xml); (k_store_success, s_true)])] []);
+     (s_ci, mk_pc [(k_retries, VLeaf s_3)] [])].
+
+(* settings_for with the documented profile-level rule in place of the coded one *)
+Definition documented_settings_for (e : env) (bp : bplat) (builtin repo : file) (tools : list file)
+           (sel : key) (t : test) (s : setting) : option sval :=
+  or_else (pass e t (compiled_for e bp repo tools sel) s)
+          (documented_profile_value (custom_profile builtin repo tools sel)
+                                    (default_profile builtin repo tools) s).
+
+Theorem junit_documented_refuted :
+  exists e bp builtin repo tools sel t s,
+    wf_file builtin = true /\ wf_file repo = true /\ forallb wf_file tools = true /\
+    settings_for e bp builtin repo tools sel t s
+    <> documented_settings_for e bp builtin repo tools sel t s.
+Proof.
+  exists w_env, w_bp, w_builtin, w_f22_repo, [], s_ci, w_t0, SJunitSuccess.
+  repeat split; try (vm_compute; reflexivity).
+  intros H. vm_compute in H. discriminate H.
+Qed.
+
+Theorem settings_documented_outside_known e bp builtin repo tools sel t s :
+  known_f22 (custom_profile builtin repo tools sel) (default_profile builtin repo tools) = false ->
+  settings_for e bp builtin repo tools sel t s
+  = documented_settings_for e bp builtin repo tools sel t s.
+Proof.
+  intros H. unfold settings_for, settings_with, documented_settings_for.
+  rewrite (profile_value_outside_known _ _ s H). reflexivity.
+Qed.
